@@ -28,11 +28,13 @@ PROPERTY = "C09"
 DRIVER = "drv_filter"
 THEOREMS = [
     "C09.reverse_order",
+    "C09.reverseOrderOk_iff",
     "C09.involutive_counterexample",
     "C09.involutive_flags_counterexample",
     "C09.involutive_deferrable_counterexample",
     "C09.involutive_partial",
     "C09.undo_leaf_partial",
+    "C09.undo_all_partial",
     "C09.undo_counterexample",
 ]
 PARTIAL = {
@@ -159,8 +161,9 @@ def check_leafs(ctx, leafs, where):
         if not ok:
             ctx.disagree("rev.rr", {"op": j}, {k: imp.get(k) for k in ("viewR", "viewRR", "err2")},
                          {k: ro.norm(m.get(k)) for k in ("viewR", "viewRR", "err2")})
-            continue
-        ctx.trace_ok()
+        else:
+            ctx.trace_ok()
+        # the spec is judged on the implementation's own output whether or not the model agrees
         if "rr" in imp:
             q2.append({"op": "rev.viewEq", "a": j, "b": imp["rr_json"]})
             idx2.append(i)
@@ -304,7 +307,7 @@ def run(ctx, n=None, rng_name="main"):
     # B: real autogenerate output
     auto_trees, auto_leafs = [], []
     for _ in range(n_pairs):
-        pair = fs.gen_pair(rng, big=ctx.thorough, with_schema=rng.random() < 0.15)
+        pair = fs.gen_pair(rng, big=ctx.thorough, with_schema=rng.random() < 0.15, c06_class=True)
         up, down = autogen_case(ctx, pair)
         auto_trees.append((up, down))
         auto_leafs.extend(flatten(up))
